@@ -488,6 +488,17 @@ def p_C13(ctx):
     if not ctx.quick:
         combos += [("release", "u32"), ("dev", "zst"), ("dev", "b3"), ("dev", "b1"), ("dev", "w80"), ("release", "w24")]
     acc_replays(ctx, r, combos, "prims")
+    # a mebibyte per element (dev profile: std's pointer precondition checks), tiny shapes; the quick tier replays a sample
+    rm = acc_tlc(ctx, "prims-mib", ["prim"], [11, 21, 12] if ctx.quick else [0, 11, 12, 21, 22], kinds=("owned", "slice_m"), depth=1, bigs=(BIG_MAX,))
+    selm = os.path.join(ctx.outdir, "prims-mib.sel.ndjson")
+    with open(rm.cases_path) as f:
+        lines = f.readlines()
+    if ctx.quick and len(lines) > 1200:
+        random.Random(ctx.seed).shuffle(lines)
+        lines = lines[:1200]
+    with open(selm, "w") as f:
+        f.writelines(lines)
+    ctx.replay(selm, attr_acc, profile="dev", elem="w1m", label="prims-mib")
     acc_random(ctx, ["prim"], 3000 if ctx.quick else 40000, 12, profile="dev")
     acc_random(ctx, ["prim"], 2000 if ctx.quick else 20000, 12, profile="release", elem="elem", label="big-elem")
     acc_random(ctx, ["prim"], 2000 if ctx.quick else 20000, 12, profile="release", elem="b3", label="big-b3")
